@@ -21,8 +21,9 @@ BOUNDS = {
     'number of DATA frames': 'unbounded by induction on (N, A): one symbolic DATA step or one '
                              'trailer step from an arbitrary (N, A)',
     'END_STREAM placement': 'on HEADERS, on DATA (symbolic flag), on trailers',
-    'no-content cases': 'responses 204 / 304 / to HEAD / to HEAD-with-request-trailers / after '
-                        '1xx, content-length absent, 0 or 5',
+    'no-content cases': 'responses 204 / 304 / to HEAD / to HEAD-with-request-trailers / to HEAD '
+                        'followed by a refused header block / after 1xx, content-length absent, '
+                        '0 or 5; header_encoding None or utf-8',
 }
 OUTSIDE = ['non-canonical content-length spellings']
 ASSUMPTIONS = ['representation invariant injected: expected = N >= 0 (or None), actual = A with '
@@ -180,16 +181,64 @@ def h_headers_end_stream(client):
     return h
 
 
-def h_no_content(kind):
+def h_initialise(client, enc):
+    """the expected length is taken from the content-length field of the received message
+    under every header_encoding configuration; a body of exactly that length is accepted, any
+    other refused"""
+    cfg = {'header_encoding': enc}
+
+    def h():
+        value = sym_choice('content_length', [0, 1, 5, 10 ** 10], default=5)
+        with h2h.native():
+            c, s = h2h.pair(ccfg=cfg, scfg=cfg)
+            if client:
+                c.send_headers(1, h2h.REQ)
+                h2h.pump(c, s)
+                s.send_headers(1, h2h.RESP + [_cl(value)])
+                h2h.pump(c, s)
+                me = c
+            else:
+                c.send_headers(1, h2h.REQ_POST + [_cl(value)])
+                h2h.pump(c, s)
+                me = s
+        _open_windows(me)
+        st = me.streams[1]
+        _need(st, '_expected_content_length', '_actual_content_length')
+        check(st._expected_content_length == value, 'expected-length-not-initialised',
+              (st._expected_content_length, value))
+        f, n, end = _data_frame(False, force_end=True)
+        try:
+            h2h.deliver(me, [f])
+        except h2.exceptions.ProtocolError:
+            note('refused')
+            check(s_not(s_eq(n, value)), 'matching-body-refused', (n, value))
+        else:
+            note('accepted')
+            check(s_eq(n, value), 'mismatching-body-accepted', (n, value))
+    return h
+
+
+def h_no_content(kind, enc=None):
     """responses defined to have no content: refused only if DATA payload arrives"""
+    cfg = {'header_encoding': enc}
+
     def h():
         cl = sym_choice('content_length', [None, 0, 5], default=5)
         with h2h.native():
-            c, s = h2h.pair()
+            c, s = h2h.pair(ccfg=cfg, scfg=cfg)
             req = h2h.REQ_HEAD if kind.startswith('head') else h2h.REQ
             if kind == 'head+trailers':
                 c.send_headers(1, req)
                 c.send_headers(1, h2h.TRAILERS, end_stream=True)
+            elif kind == 'head+refused-block':
+                # a block the library refuses (request pseudo-headers in trailer position,
+                # naming another method) contributes nothing: the request stays a HEAD
+                c.send_headers(1, req)
+                try:
+                    c.send_headers(1, h2h.REQ, end_stream=True)
+                except h2.exceptions.ProtocolError:
+                    pass
+                c.end_stream(1)
             else:
                 c.send_headers(1, req, end_stream=True)
             h2h.pump(c, s)
@@ -243,6 +292,12 @@ def shards(tier, seed):
         out.append(Shard('headers_end_stream/%s' % r, h_headers_end_stream(client),
                          expect=['accepted']))
         out.append(Shard('no_content_length/%s' % r, h_absent(client), expect=['accepted']))
-    for kind in ('head', 'head+trailers', '204', '304', '1xx'):
+    for kind in ('head', 'head+trailers', 'head+refused-block', '204', '304', '1xx'):
         out.append(Shard('no_content_response/%s' % kind, h_no_content(kind)))
+    for kind in ('head', '204', '304'):
+        out.append(Shard('no_content_response/%s/enc=utf-8' % kind, h_no_content(kind, 'utf-8')))
+    for client in (True, False):
+        for enc in (None, 'utf-8'):
+            out.append(Shard('initialise/%s/enc=%s' % ('client' if client else 'server', enc),
+                             h_initialise(client, enc), expect=['accepted', 'refused']))
     return out
